@@ -859,6 +859,13 @@ def one_history(ctx, c):
     names = list(SPECS)
     name = names[c % len(names)]
     regime = LM.Regime(str(g.choice(["unique", "unique", "unique", "dup", "absent"])))
+    g2 = ctx.rng("hist-grp", c)
+    if g2.random() < 0.45:
+        # group / chromosome labels that are not 0..k: smallest label exactly -1 ("unknown"), all negative, gaps, large
+        MAPS = [(1, -1), (1, -1), (1, -3), (1, -8), (2, -1), (3, 0), (2, 1), (1, 100000), (5, -20)]
+        regime.tgrp = MAPS[int(g2.integers(len(MAPS)))]
+        regime.cgrp = MAPS[int(g2.integers(len(MAPS)))]
+        ctx.sumnote("histories with negative, gapped or large group labels")
     small = g.random() < 0.25
     ids = {}
     for a in axes_of(name):
